@@ -10,7 +10,10 @@
      is back-filled from bytes[prev.pos : pos] when the NEXT token arrives; the last opcode is
      never back-filled), Opcode.__new__ refusing opcodes without a class, the mapping of
      ValueError to EmptyPickleError / PickleDecodeError, first_pos, the final seek, and the three
-     stream kinds of Pickled.make_stream.
+     stream kinds of Pickled.make_stream.  A non-seekable input is parsed through fickle._RecordingReader
+     ([load_loop_rec] / [load_stream_rec]): bytes are taken from the caller's stream only as genops asks
+     for them, every seek()/read() of the loop body is answered from the bytes recorded so far, and the
+     caller's stream ends up exactly behind the first pickle.
    - [dumps], [stacked_load] (StackedPickle.load).
 
    Executable definitions only -- the proofs are in proofs/CodecProofs.v. *)
@@ -246,10 +249,58 @@ Definition load_stream (buf : list byte) (start : nat) : lres (list opc * nat) :
       end
   end.
 
+(* ---------- Pickled.load through fickle._RecordingReader (non-seekable input) ----------
+   [buf] = what the caller's stream still holds when the call is made; the reader's tell() counts from
+   0.  genops only ever calls read(n) / readline() for the bytes of the token it is decoding (no
+   look-ahead), so when the loop body runs for token [t] the reader has taken exactly the first
+   [t_len t + t_pos t] bytes from the caller's stream: [seen].  The body's seek()s go back to positions
+   <= that frontier and its read()s are answered from [seen] alone (a seek beyond it raises). *)
+Definition recorded (buf : list byte) (t : token) : list byte := firstn (t_len t + t_pos t) buf.
+
+Fixpoint load_loop_rec (buf : list byte) (ts : list token) (st : tstatus) (acc : list opc)
+  : lres (list opc) :=
+  match ts with
+  | [] =>
+      match st with
+      | TDone => LOk acc
+      | TErr EValue => LErr (value_error acc)
+      | TErr e => LErr (LOther e)
+      end
+  | t :: more =>
+      let seen := recorded buf t in
+      let acc1 := backfill seen acc (t_pos t) in
+      match immediate_data seen t with
+      | Err _ => LErr (value_error acc1)
+      | Ok d =>
+          if row_has_class (t_row t)
+          then load_loop_rec buf more st (mkOpc (t_row t) (t_pos t) d :: acc1)
+          else LErr LNotImpl
+      end
+  end.
+
+(* (opcodes, position of the reader = number of bytes taken from the caller's stream).  The final
+   seek(last_pos) goes to the end of the STOP token, which is where the reader already is. *)
+Definition load_stream_rec (buf : list byte) (start : nat) : lres (list opc * nat) :=
+  let first_pos := start in
+  let (ts, st) := genops_at buf start in
+  match load_loop_rec buf ts st [] with
+  | LErr e => LErr e
+  | LOk acc =>
+      match acc with
+      | last :: _ =>
+          let last_pos := match o_data last with
+                          | Some d => List.length d + o_pos last
+                          | None => 1 + o_pos last
+                          end in
+          LOk (rev acc, last_pos)
+      | [] => LOk ([], first_pos)
+      end
+  end.
+
 Inductive kind :=
 | KBytes          (* bytes / bytearray: BytesIO(data), position 0 *)
 | KSeekable       (* the caller's seekable stream, used as is, at its current offset *)
-| KNonSeekable.   (* BytesIO(data.read()): everything from the current offset on is consumed *)
+| KNonSeekable.   (* _RecordingReader(data): reads through to the caller's stream on demand *)
 
 Record loaded := mkLoaded {
   l_ops : list opc;
@@ -270,8 +321,9 @@ Definition load_model (k : kind) (bs : list byte) (off : nat) : lres loaded :=
       | LErr x => LErr x
       end
   | KNonSeekable =>
-      match load_stream (skipn off bs) 0 with
-      | LOk (ops, e) => LOk (mkLoaded ops e (Some (Nat.max off (List.length bs))))
+      (* the caller's stream has handed out exactly the e bytes the reader took *)
+      match load_stream_rec (skipn off bs) 0 with
+      | LOk (ops, e) => LOk (mkLoaded ops e (Some (off + e)))
       | LErr x => LErr x
       end
   end.
@@ -337,6 +389,10 @@ Definition stacked_stream (buf : list byte) (start : nat) : lres (list (list opc
   | r => r
   end.
 
+(* StackedPickle.load wraps a non-seekable input ONCE (make_stream); the Pickled.load calls of its loop
+   see a reader that answers seekable() with True and share it, so positions keep counting from the first
+   pickle and every call starts at the reader's frontier: [stacked_stream] over what the caller's stream
+   held (load_stream_rec = load_stream, CodecProofs.load_stream_rec_eq). *)
 Definition stacked_load (k : kind) (bs : list byte) (off : nat) : lres (list (list opc) * nat) :=
   match k with
   | KBytes => stacked_stream bs 0
